@@ -37,6 +37,10 @@ def make_layout(root, i, it):
             lines = ["mixed %s(int d) {" % name, "  mixed x; function f;"] + padcode(it["pad"]) + \
                     ["  f = (: 1 / $1 :);", "  return evaluate(f, zero);", "}"]
             return lines, len(lines) - 3
+        if kind == "anonfn":      # a multi-line function literal; the failing statement is the LAST code line of its body
+            lines = ["mixed %s(int d) {" % name, "  mixed x; function f;"] + padcode(it["pad"]) + \
+                    ["  f = function(int z) {", "    mixed q;", "    q = 7;", "    q = 1 / z;", "  };", "  return evaluate(f, zero);", "}"]
+            return lines, len(lines) - 4
         lines = ["mixed %s(int d) {" % name, "  mixed x;"] + padcode(it["pad"]) + ["  x = 1 / zero;", "  return x;", "}"]
         return lines, len(lines) - 3
 
@@ -54,7 +58,7 @@ def make_layout(root, i, it):
     hdr = ["// generated layout %s" % json.dumps(it), "int zero;", "mixed a = 1;"]
     fl, fidx = body_func()
     blank = [""] * extra
-    if kind in ("main", "funlit"):
+    if kind in ("main", "funlit", "anonfn"):
         src = hdr + blank + fl + callers("m")
         line = len(hdr) + extra + fidx + 1
         open(os.path.join(d, "m.c"), "w").write("\n".join(src) + "\n")
@@ -119,7 +123,7 @@ def make_layout(root, i, it):
     chain = [["go", base + "/m.c"]] + [[f, base + "/m.c"] for f in chain_fns] + [["inner", prog]]
     if kind == "funlit":
         chain = chain     # the literal adds frames of its own after `inner`; judged as a prefix below
-    return dict(file=exp_file, line=line, chain=chain, obj="/%s/m" % base, init=False, funlit=(kind == "funlit"))
+    return dict(file=exp_file, line=line, chain=chain, obj="/%s/m" % base, init=False, funlit=(kind in ("funlit", "anonfn")))
 
 
 def run(tier, work):
